@@ -18,6 +18,20 @@ import (
 	"strings"
 )
 
+// reflectTag returns the value of the xml key of a struct tag.
+func reflectTag(tag string) string {
+	const key = `xml:"`
+	i := strings.Index(tag, key)
+	if i < 0 {
+		return ""
+	}
+	rest := tag[i+len(key):]
+	if j := strings.Index(rest, `"`); j >= 0 {
+		return rest[:j]
+	}
+	return ""
+}
+
 func c05StrConst(name string) (string, bool) {
 	e := constExpr(name)
 	if e == nil {
@@ -418,6 +432,62 @@ func init() {
 			"sst.Count = len(sst.SI)", "sst.UniqueCount = sst.Count", "f.sharedStringsMap[t.Val] = sst.UniqueCount - 1", "return sst.UniqueCount - 1, nil")
 		sstFacts("SetCellRichText", "if reflect.DeepEqual(strItem, si) {", "c.T, c.V = \"s\", strconv.Itoa(idx)", "sst.SI = append(sst.SI, si)",
 			"c.T, c.V = \"s\", strconv.Itoa(len(sst.SI)-1)")
+		// element order of the worksheet / chartsheet writers = field order of the structs
+		// (encoding/xml emits fields in declaration order; the stream writer copies fields by index)
+		for _, t := range [][2]string{{"xlsxWorksheet", "wsFieldOrder"}, {"xlsxChartsheet", "csFieldOrder"}} {
+			var names, slices []string
+			found := false
+			for _, f := range files {
+				for _, d := range f.Decls {
+					gd, ok := d.(*ast.GenDecl)
+					if !ok || gd.Tok != token.TYPE {
+						continue
+					}
+					for _, sp := range gd.Specs {
+						ts := sp.(*ast.TypeSpec)
+						st, ok := ts.Type.(*ast.StructType)
+						if !ok || ts.Name.Name != t[0] {
+							continue
+						}
+						found = true
+						for _, fld := range st.Fields.List {
+							if fld.Tag == nil || (len(fld.Names) == 1 && fld.Names[0].Name == "XMLName") {
+								continue
+							}
+							tag := reflectTag(unq(fld.Tag.Value))
+							name := strings.Split(tag, ",")[0]
+							if name == "" || name == "-" || strings.Contains(tag, ",attr") || strings.Contains(tag, ",chardata") ||
+								strings.Contains(tag, ",innerxml") || strings.Contains(name, " ") {
+								continue
+							}
+							names = append(names, name)
+							if _, isSlice := fld.Type.(*ast.ArrayType); isSlice {
+								slices = append(slices, name)
+							}
+						}
+					}
+				}
+			}
+			if !found {
+				fail("type %s struct", t[0])
+			}
+			fmt.Fprintf(w, "def %s : List String := [", t[1])
+			for i, n := range names {
+				if i > 0 {
+					w.WriteString(", ")
+				}
+				w.WriteString(leanStr(n))
+			}
+			w.WriteString("]\n")
+			fmt.Fprintf(w, "def %sSlices : List String := [", t[1])
+			for i, n := range slices {
+				if i > 0 {
+					w.WriteString(", ")
+				}
+				w.WriteString(leanStr(n))
+			}
+			w.WriteString("]\n")
+		}
 		// trimRow: is the slot counter advanced for every row (true) or only for kept rows (false)?
 		keeps := "false"
 		if fd := funcDecl("", "trimRow"); fd != nil {
